@@ -16,7 +16,10 @@ sequence.  This module follows the decoder through ANY history of calls:
 * ISO-2022-JP: `iso_history_state` / **`has_pending_iff_history`** (raw API with the manual procedure)
   and **`has_pending_iff_repl_history`** (with replacement): after every call of every history, the
   decoder that has read the bytes written so far accepts them and is in the escape state of the
-  encoder; `has_pending_state()` ⇔ that state is not ASCII.
+  encoder; `has_pending_state()` ⇔ that state is not ASCII;
+* all 40 encodings: **`history_decodes_complete`** / `history_decodes_complete_raw` — the bytes written
+  so far, taken on their own as a COMPLETE stream, decode without any error event (none at the end of
+  the stream either) to a prefix of `expected v text`, after every call of every history.
 -/
 namespace EncodingRs.Thm.C12State
 open EncodingRs EncodingRs.Model EncodingRs.Lemmas.Core EncodingRs.Lemmas.EncCore
@@ -382,15 +385,15 @@ theorem iso_mid_cases {c : Nat} {s s' : IsoEncSt} {o : List Nat} (h : Mid iso202
 
 /-- the decoder state that only knows the escape state (the output flag is set right after an escape
 sequence, so `Corr` does not hold there) -/
-def Corr' (s : IsoEncSt) (d : Iso2022JpSt) : Prop :=
+def CorrW (s : IsoEncSt) (d : Iso2022JpSt) : Prop :=
   d.decoderState = isoSt s ∧ d.outputState = isoOut s ∧ d.pendingPrepended = false
 
-theorem Corr.weaken {s : IsoEncSt} {d : Iso2022JpSt} (h : Corr s d) : Corr' s d := ⟨h.1, h.2.1, h.2.2.2⟩
+theorem Corr.weaken {s : IsoEncSt} {d : Iso2022JpSt} (h : Corr s d) : CorrW s d := ⟨h.1, h.2.1, h.2.2.2⟩
 
 /-- from a state corresponding to `s`, the decoder accepts the escape sequence into `t` silently and
 is then in the state of `t` -/
 theorem iso_esc_feed (s t : IsoEncSt) (d : Iso2022JpSt) (h : Corr s d) :
-    ∃ d', feedAll iso2022JpFam d (escOf t) = some ([], d') ∧ Corr' t d' := by
+    ∃ d', feedAll iso2022JpFam d (escOf t) = some ([], d') ∧ CorrW t d' := by
   have hq := corr_eqv_d0 s d h
   have h0 : ∃ e, feedAll iso2022JpFam (d0 s) (escOf t) = some ([], e) ∧
       e.decoderState = isoSt t ∧ e.outputState = isoOut t := by
@@ -406,7 +409,7 @@ theorem iso_heof2 (s : IsoEncSt) : iso2022JpEFam.eof (iso2022JpEFam.eof s).2 = (
 written so far, and having read them is in the escape state of the encoder -/
 theorem iso_history_state (text : List Nat) (h : ∀ c ∈ text, isScalar c = true) (evs : List EEv)
     (s' : IsoEncSt) (text' : List Nat) (hist : EHist iso2022JpEFam .ascii text evs s' text') :
-    ∃ o d, feedAll iso2022JpFam isoInit (subst evs) = some (o, d) ∧ Corr' s' d := by
+    ∃ o d, feedAll iso2022JpFam isoInit (subst evs) = some (o, d) ∧ CorrW s' d := by
   obtain ⟨p, o, h1, h2, h3⟩ := hist_pos iso2022JpEFam iso_heof2 _ text evs s' text' hist
   have hp : ∀ c ∈ p, isScalar c = true := fun c hc => h c (by rw [h1]; exact List.mem_append_left _ hc)
   obtain ⟨d1, hf, hc⟩ := iso_open p .ascii isoInit hp corr_init
@@ -429,7 +432,7 @@ theorem iso_history_state (text : List Nat) (h : ∀ c ∈ text, isScalar c = tr
     rw [hs']
     exact ⟨e1, e2, e3⟩
 
-theorem hasPending_iff_corr' (s : IsoEncSt) (d : Iso2022JpSt) (h : Corr' s d) :
+theorem hasPending_iff_corrW (s : IsoEncSt) (d : Iso2022JpSt) (h : CorrW s d) :
     (iso2022JpEFam.hasPending s = true ↔ d.decoderState ≠ .ascii) ∧ d.outputState.toSt = d.decoderState := by
   rw [h.1, h.2.1]
   cases s <;> simp [iso2022JpEFam, isoEncHasPending, isoSt, isoOut, IsoOut.toSt]
@@ -443,7 +446,7 @@ theorem has_pending_iff_history (text : List Nat) (h : ∀ c ∈ text, isScalar 
     ∃ o d, feedAll iso2022JpFam isoInit (subst evs) = some (o, d) ∧
       (iso2022JpEFam.hasPending s' = true ↔ d.decoderState ≠ .ascii) ∧ d.outputState.toSt = d.decoderState := by
   obtain ⟨o, d, hf, hc⟩ := iso_history_state text h evs s' text' hist
-  exact ⟨o, d, hf, hasPending_iff_corr' s' d hc⟩
+  exact ⟨o, d, hf, hasPending_iff_corrW s' d hc⟩
 
 /-- **C12 `has_pending_iff` at EVERY call boundary, with replacement**: after any history of
 `encode_from_utf8` / `encode_from_utf16` calls of the ISO-2022-JP encoder -/
@@ -474,6 +477,124 @@ theorem final_not_pending (canAll : Bool) (ncrExtra : Nat) (text : List Nat) (by
 /-- every other encoder: `has_pending_state()` is false in every state (restated from C12) -/
 theorem has_pending_false_other (v : Gen.Variant) (hv : v ≠ .iso2022Jp) (s : (efamOfVariant v).σ) :
     (efamOfVariant v).hasPending s = false := has_pending_stateless v hv s
+
+/-! ## the bytes so far are, on their own, error-free text — at every call boundary -/
+
+theorem mid_rank0 (E : EFam) (hrank : ∀ s c, E.rank s c = 0) {c : Nat} {s s' : E.σ} {o : List Nat}
+    (h : Mid E c s s' o) : o = [] ∧ s' = s := by
+  cases h with
+  | here => exact ⟨rfl, rfl⟩
+  | step _ _ o' hu hr hm =>
+    exfalso
+    have := E.unread_rank s c hr
+    rw [hrank s c] at this
+    omega
+
+theorem rank0_of_not_iso (v : Gen.Variant) (hv : v ≠ .iso2022Jp) (s : (efamOfVariant v).σ) (c : Nat) :
+    (efamOfVariant v).rank s c = 0 := by
+  cases v <;> first | rfl | exact absurd rfl hv
+
+theorem heof2_of_not_iso (v : Gen.Variant) (hv : v ≠ .iso2022Jp) (s : (efamOfVariant v).σ) :
+    (efamOfVariant v).eof ((efamOfVariant v).eof s).2 = ([], ((efamOfVariant v).eof s).2) := by
+  cases v <;> first | rfl | exact absurd rfl hv
+
+theorem corrW_pend (s : IsoEncSt) (d : Iso2022JpSt) (h : CorrW s d) : iso2022JpFam.pend d = none :=
+  (Lemmas.FamLaws.iso_pend_none_iff d).mpr h.2.2
+
+theorem corrW_eof (s : IsoEncSt) (d : Iso2022JpSt) (h : CorrW s d) : iso2022JpFam.eof d = none := by
+  show isoEof d = none
+  unfold isoEof
+  rw [h.1]
+  cases s <;> rfl
+
+theorem expected_append (v : Gen.Variant) (p q : List Nat) : expected v (p ++ q) = expected v p ++ expected v q := by
+  unfold expected; rw [List.flatMap_append]
+
+/-- a decoder that accepted `bs` from its initial state and ends in a state without delayed output in
+which the end of the stream is no error has decoded `bs`, as a COMPLETE stream, without an error event -/
+theorem ref_of_feedAll (F : Fam) (hinit : F.pend F.init = none) (bs o : List Nat) (d : F.σ)
+    (hf : feedAll F F.init bs = some (o, d)) (he : F.eof d = none) : ref F F.init bs 0 = o.map Ev.cp := by
+  obtain ⟨h1, hp⟩ := feedAll_ref F bs F.init o d [] 0 hf hinit
+  rw [List.append_nil] at h1
+  rw [h1, ref_done F d _ hp he, List.append_nil]
+
+/-- raw-history form, one variant at a time: the decoder accepts the bytes so far and ends in a state
+in which the end of the stream is no error; the decoded text is a prefix of `expected v text` -/
+theorem history_feed_complete (v : Gen.Variant) (hv : IsEnc v) (text : List Nat)
+    (h : ∀ c ∈ text, isScalar c = true) (evs : List EEv) (s' : (efamOfVariant v).σ) (text' : List Nat)
+    (hist : EHist (efamOfVariant v) (efamOfVariant v).init text evs s' text') :
+    ∃ o o2 d, feedAll (decFam v) (decFam v).init (subst evs) = some (o, d) ∧ (decFam v).eof d = none ∧
+      expected v text = o ++ o2 := by
+  by_cases hiso : v = .iso2022Jp
+  · subst hiso
+    have hist' : EHist iso2022JpEFam IsoEncSt.ascii text evs s' text' := hist
+    obtain ⟨p, o, h1, h2, h3⟩ := hist_pos iso2022JpEFam iso_heof2 IsoEncSt.ascii text evs s' text' hist'
+    have hp : ∀ c ∈ p, isScalar c = true := fun c hc => h c (by rw [h1]; exact List.mem_append_left _ hc)
+    obtain ⟨d1, hf, hc⟩ := iso_open p .ascii isoInit hp corr_init
+    have hsub : subst evs = subst (erefOpen iso2022JpEFam .ascii p).1 ++ o := by
+      rw [h2, subst_append, subst_bytes]
+    have hexp : expected .iso2022Jp text = expected .iso2022Jp p ++ expected .iso2022Jp text' := by
+      rw [h1]; exact expected_append _ _ _
+    have hfeed : ∃ d, feedAll iso2022JpFam isoInit (subst evs) = some (expected .iso2022Jp p, d) ∧
+        iso2022JpFam.eof d = none := by
+      rw [hsub]
+      rcases h3 with ⟨ho, _⟩ | ⟨c, t, _, hmid⟩ | ⟨_, ho, _⟩
+      · subst ho
+        exact ⟨d1, by rw [List.append_nil]; exact hf, corr_eof _ d1 hc⟩
+      · rcases iso_mid_cases hmid with ⟨ho, _⟩ | ho
+        · subst ho
+          exact ⟨d1, by rw [List.append_nil]; exact hf, corr_eof _ d1 hc⟩
+        · obtain ⟨d', hf', hc'⟩ := iso_esc_feed _ s' d1 hc
+          rw [ho]
+          have := feedAll_append_some iso2022JpFam _ _ _ _ _ _ _ hf hf'
+          rw [List.append_nil] at this
+          exact ⟨d', this, corrW_eof _ d' hc'⟩
+      · obtain ⟨d', hf', e1, e2, e3, _⟩ := iso_eof_feed _ d1 hc
+        rw [ho]
+        have := feedAll_append_some iso2022JpFam _ _ _ _ _ _ _ hf hf'
+        rw [List.append_nil] at this
+        exact ⟨d', this, corrW_eof .ascii d' ⟨e1, e2, e3⟩⟩
+    obtain ⟨d, hfd, hed⟩ := hfeed
+    exact ⟨_, _, d, hfd, hed, hexp⟩
+  · obtain ⟨p, o, h1, h2, h3⟩ := hist_pos (efamOfVariant v) (heof2_of_not_iso v hiso) _ text evs s' text' hist
+    have hp : ∀ c ∈ p, isScalar c = true := fun c hc => h c (by rw [h1]; exact List.mem_append_left _ hc)
+    obtain ⟨d, hf, _, he, d', hf', _, he'⟩ := (rt_all v hv).open_ p hp
+    have hsub : subst evs = subst (erefOpen (efamOfVariant v) (efamOfVariant v).init p).1 ++ o := by
+      rw [h2, subst_append, subst_bytes]
+    have hexp : expected v text = expected v p ++ expected v text' := by
+      rw [h1]; exact expected_append _ _ _
+    rw [hsub]
+    rcases h3 with ⟨ho, _⟩ | ⟨c, t, _, hmid⟩ | ⟨_, ho, _⟩
+    · subst ho
+      exact ⟨_, _, d, by rw [List.append_nil]; exact hf, he, hexp⟩
+    · obtain ⟨ho, _⟩ := mid_rank0 _ (rank0_of_not_iso v hiso) hmid
+      subst ho
+      exact ⟨_, _, d, by rw [List.append_nil]; exact hf, he, hexp⟩
+    · rw [ho]
+      have := feedAll_append_some (decFam v) _ _ _ _ _ _ _ hf hf'
+      rw [List.append_nil] at this
+      exact ⟨_, _, d', this, he', hexp⟩
+
+/-- **C12, every call boundary, raw API (manual procedure)**: the bytes written so far by ANY history of
+calls — taken on their own as a complete stream, so also when the history stops between an escape
+sequence and its character — decode without any error event (none at the end of the stream either) to a
+prefix of `expected v text` -/
+theorem history_decodes_complete_raw (v : Gen.Variant) (hv : IsEnc v) (text : List Nat)
+    (h : ∀ c ∈ text, isScalar c = true) (evs : List EEv) (s' : (efamOfVariant v).σ) (text' : List Nat)
+    (hist : EHist (efamOfVariant v) (efamOfVariant v).init text evs s' text') :
+    ∃ o o2, ref (decFam v) (decFam v).init (subst evs) 0 = o.map Ev.cp ∧ expected v text = o ++ o2 := by
+  obtain ⟨o, o2, d, hf, he, hexp⟩ := history_feed_complete v hv text h evs s' text' hist
+  exact ⟨o, o2, ref_of_feedAll _ (rt_all v hv).init_pend _ _ d hf he, hexp⟩
+
+/-- **C12, every call boundary, with replacement** -/
+theorem history_decodes_complete (v : Gen.Variant) (hv : IsEnc v) (text : List Nat)
+    (h : ∀ c ∈ text, isScalar c = true) (canAll : Bool) (ncrExtra : Nat) (bytes : List Nat) (had : Bool)
+    (s' : (efamOfVariant v).σ) (text' : List Nat)
+    (hist : EReplHist (efamOfVariant v) canAll ncrExtra (efamOfVariant v).init text bytes had s' text') :
+    ∃ o o2, ref (decFam v) (decFam v).init bytes 0 = o.map Ev.cp ∧ expected v text = o ++ o2 := by
+  obtain ⟨evs, h1, h2⟩ := repl_hist_is_hist _ canAll ncrExtra _ text bytes had s' text' hist
+  rw [h2]
+  exact history_decodes_complete_raw v hv text h evs s' text' h1
 
 /-! ## Non-vacuity: the stop between `ESC ( J` and U+00A5 -/
 
